@@ -419,6 +419,7 @@ func init() { registerReplay("C18", propC18) }
 
 const c18Rule = "rapid-generated: adapter (ProtoCloner, CodecCloner(proto), CloneFunc(ProtoCloner.Clone), CopyFunc(ProtoCloner.Copy)) x op (Clone, Copy) x source of 8 message types (test Message incl. maps/Any/unknown fields, HttpTrailer, Struct, Any, Timestamp, Empty, StringValue, BytesValue) in generated or dynamic representation x destination (empty, pre-populated, other representation empty/pre-populated, different message type, pointer to a non-proto struct); " +
 	"oracle: result equals the source (compared through the generated type), source bytes unchanged, flipping every reachable byte of the copy leaves the source intact and vice versa, destination holds exactly the source content, different type / non-proto => non-nil error and no shared memory; generated<->dynamic must succeed except for CloneFunc (an error is accepted there, a silent wrong copy is not); never a panic; " +
+	"also generated since the seeded rounds: the adapter has just been through copies that fail (invalid UTF-8 in a dynamic source, non-message destination) - a failure leaves nothing behind; " +
 	"non-trivial = pre-populated / cross-representation / refusal destination, or a dynamic source; distinct by case hash"
 
 // c18Decodes: do the bytes decode as the type in both representations (what build needs)?
